@@ -264,6 +264,93 @@ func ruleOpenOrder(r *Run, p *Program, rule string) {
 	}
 	// recover after index/log opened and meta read
 	r.check(mustPrecedeInstr(f, recoverCall, openIdx) && mustPrecedeInstr(f, recoverCall, openLog), rule, "pogreb.Open:recover-after-open", p.Pos(recoverCall.Pos()), "recover() runs after index and log were opened", "recover() can run before index/log are opened")
+	// the lock Open holds and the "already existed" flag it acts on come from the same CreateLockFile call: a wrapper
+	// that retries must not pair the lock of one attempt with the flag of another
+	if g := lockCall.Call.StaticCallee(); g != nil && g.Blocks != nil {
+		r.fn(funcKey(g))
+		n := 0
+		for _, ret := range returnsOf(g) {
+			if isFailureReturn(g, ret) {
+				continue
+			}
+			lockFrom, flagFrom := map[*ssa.Call]bool{}, map[*ssa.Call]bool{}
+			for _, v := range retComponents(ret) {
+				var into map[*ssa.Call]bool
+				switch {
+				case isBoolType(v.Type()):
+					into = flagFrom
+				case typeName(v.Type()) == "fs.LockFile":
+					into = lockFrom
+				default:
+					continue
+				}
+				for _, s := range sources(v) {
+					if c, _ := valueComponent(s); c != nil && isInvoke(&c.Call, "fs.FileSystem", "CreateLockFile") {
+						into[c] = true
+					} else if _, isc := s.(*ssa.Const); !isc {
+						into[nil] = true
+					}
+				}
+			}
+			if len(lockFrom) == 0 && len(flagFrom) == 0 {
+				continue
+			}
+			n++
+			same := len(lockFrom) == len(flagFrom) && !lockFrom[nil] && !flagFrom[nil]
+			for c := range lockFrom {
+				if !flagFrom[c] {
+					same = false
+				}
+			}
+			r.check(same, rule, funcKey(g)+":lock-and-flag-same-call", p.Pos(instrPos(ret)),
+				"the lock and the 'lock file already existed' flag handed to Open come from the same FileSystem.CreateLockFile call(s)",
+				"the lock returned to Open and the 'lock file already existed' flag can come from different CreateLockFile attempts: an Open that acquires the lock on a later attempt acts on the flag of an earlier, failed one (always false) and skips recovery of a directory whose owner died")
+		}
+		r.universe(rule+":lock-wrapper-returns", n, 1)
+	}
+	// the background worker (any goroutine) is started only when the database is fully assembled and recovered:
+	// recover() takes no lock, a worker running beside it compacts against a half-rebuilt index
+	{
+		spawns := map[*ssa.Function]bool{}
+		for _, g := range p.ModuleFuncs("") {
+			instrsOf(g, func(in ssa.Instruction) {
+				if _, ok := in.(*ssa.Go); ok {
+					for h := g; h != nil; h = h.Parent() {
+						spawns[h] = true
+					}
+				}
+			})
+		}
+		var starts []ssa.Instruction
+		instrsOf(f, func(in ssa.Instruction) {
+			switch x := in.(type) {
+			case *ssa.Go:
+				starts = append(starts, x)
+			case *ssa.Call:
+				if g := x.Call.StaticCallee(); g != nil && g.Pkg == p.MainS {
+					for _, h := range deepFuncs(p, g) {
+						if spawns[h] {
+							starts = append(starts, x)
+							break
+						}
+					}
+				}
+			}
+		})
+		if r.anchor(rule, "start of the background worker in Open", len(starts) > 0) {
+			wk := &Walk{Fn: f}
+			wk.From(starts...)
+			late := ""
+			for _, c := range []*ssa.Call{backupCall, recoverCall, openIdx, openLog} {
+				if wk.Visited[c] {
+					late += " " + calleeKey(&c.Call)
+				}
+			}
+			r.check(late == "", rule, "pogreb.Open:worker-after-assembly", p.Pos(starts[0].Pos()),
+				"goroutines are started only after the index and log were opened and recovery has finished",
+				"Open starts the background worker before"+late+": the worker's Sync/Compact run against a database that is still being assembled or replayed (recover holds no lock), e.g. a compaction judging liveness against a half-rebuilt index copies stale records and removes their source")
+		}
+	}
 	// who may call
 	for _, g := range p.ModuleFuncs("") {
 		instrsOf(g, func(in ssa.Instruction) {
